@@ -5,6 +5,8 @@ use serde_json::{json, Value};
 use std::panic;
 
 mod util;
+mod fixture;
+mod c02;
 mod c14;
 mod c20;
 
@@ -34,6 +36,7 @@ fn main() {
     match prop {
         "C14" => { c14::run(&mut r); c20::run(&mut r) }
         "C20" => c20::run(&mut r),
+        "C02" => c02::run(&mut r),
         _ => {}
     }
     println!("{}", json!({"property": prop, "cases": r.cases, "failing": r.failing}));
